@@ -357,7 +357,15 @@ impl Ep {
             return Some(p.clone());
         }
         if let Some(p) = self.reference.get(tpl) {
-            return Some(self.retag(p.clone()));
+            let mut p = self.retag(p.clone());
+            if tpl == "sctp.forward_tsn" && p.len() >= 20 {
+                // what the genuine peer would say in this session: it gives up the oldest outstanding chunk
+                if let Some(cum) = self.seq_base("tsn_in") {
+                    p[16..20].copy_from_slice(&((cum as u32).wrapping_add(1)).to_be_bytes());
+                    fix_crc(&mut p);
+                }
+            }
+            return Some(p);
         }
         let v = self.vtag_a;
         let data_chunk = |tsn: u32| {
